@@ -57,7 +57,7 @@ def traceCase : RdM String := do
   let mut out := s!"case {id}\n" ++ dumpInit c s.sh ++ "\n" ++ dumpSys "ev0" c s ++ "\n"
   let mut script : Array String := #[]
   let mut rng : UInt64 := (UInt64.ofNat seed) * 2862933555777941757 + 3037000493
-  let mut bad : List String := (if initOk c s.sh then [] else ["initOk"]) ++ (if initOk2 c s.sh then [] else ["initOk2"]) ++ (if initOk3 c s.sh then [] else ["initOk3"]) ++ failing c s
+  let mut bad : List String := (if initOk c s.sh then [] else ["initOk"]) ++ (if initOk2 c s.sh then [] else ["initOk2"]) ++ (if initOk3 c s.sh then [] else ["initOk3"]) ++ (if postOrdB c.n c.etree then [] else ["postOrd"]) ++ failing c s
   let mut polls := 0
   for _ in [0:maxEv] do
     let evs := enabledEvents c s
@@ -100,7 +100,7 @@ partial def exploreCase : RdM String := do
   let mut frontier : Array Sys := #[s0]
   seen := seen.insert (keySys c s0)
   let mut states := 1; let mut trans := 0
-  let mut bad : List String := (if initOk c s0.sh then [] else ["initOk"]) ++ (if initOk2 c s0.sh then [] else ["initOk2"]) ++ (if initOk3 c s0.sh then [] else ["initOk3"]) ++ failing c s0
+  let mut bad : List String := (if initOk c s0.sh then [] else ["initOk"]) ++ (if initOk2 c s0.sh then [] else ["initOk2"]) ++ (if initOk3 c s0.sh then [] else ["initOk3"]) ++ (if postOrdB c.n c.etree then [] else ["postOrd"]) ++ failing c s0
   let mut terminal := 0; let mut terminalBad := 0
   let mut truncated := false
   while !frontier.isEmpty && bad.isEmpty do
